@@ -514,6 +514,12 @@ func c17Check(c *ev.Collector, env *pluginEnv, k c17Case) *c17Gen {
 		c.Outcome("violation")
 		return nil
 	}
+	// where the file goes: under the Go import path of the file's package (default paths=import), next
+	// to where protoc-gen-go puts the .pb.go - a package at any other place is not the one the
+	// generated import path names
+	if name := connectFiles[0].GetName(); !strings.HasPrefix(name, k.goImportPath()+"/") || !strings.HasSuffix(name, fmt.Sprintf("connect/c%d.connect.go", k.ID)) {
+		viol("file-location", "elsewhere", "the generated file is named %q; the Go import path of the file's package is %q", name, k.goImportPath())
+	}
 	src := connectFiles[0].GetContent()
 	facts, perr := analyse(src)
 	if perr != nil {
